@@ -71,6 +71,34 @@ pub fn sign<S: MlDsa>(seed: u64, nfull: usize, nfactor: usize, allctx: bool, out
             }
         }
     }
+    // (ii') accepted private-key strings the library did NOT produce: Algorithm 7 uses rho, K, tr, t0 exactly as stored, so a
+    // loader that "repairs" or recomputes a section (tr from the public key, t0 from s1/s2, ...) signs differently.  Only
+    // modifications under which the rejection loop still terminates: tr and K arbitrary, one low bit of one t0 field.
+    {
+        let c = crate::msgfmt::bit_length(2 * S::ETA);
+        let t0_off = 128 + 32 * c * (S::L + S::K);
+        let variants: Vec<(&str, Box<dyn Fn(&mut Vec<u8>, &mut Prng)>)> = vec![
+            ("tr section random", Box::new(|b: &mut Vec<u8>, p: &mut Prng| { for x in b[64..128].iter_mut() { *x = p.below(256) as u8; } })),
+            ("K section zero", Box::new(|b: &mut Vec<u8>, _p: &mut Prng| { for x in b[32..64].iter_mut() { *x = 0; } })),
+            ("one low bit of a t0 field flipped", Box::new(move |b: &mut Vec<u8>, p: &mut Prng| { let f = p.below(256 * S::K as u64) as usize; let bit = t0_off * 8 + 13 * f; b[bit / 8] ^= 1 << (bit % 8); })),
+        ];
+        let take: Vec<usize> = if nfull > 6 { vec![0, 1, 2] } else { vec![(seed as usize) % 3] };
+        for vi in take {
+            let (name, f) = &variants[vi];
+            let mut b = skb.clone();
+            f(&mut b, &mut p);
+            let mp = msg_of(&mut p, 77 + vi as u64);
+            let rnd = p.arr32();
+            vh::trace_start();
+            let r = guarded(|| S::sk_from(&b).map(|sk| S::internal_sign(&sk, &mp, rnd)));
+            let att = vh::trace_take().iter().filter(|e| e.0 == "sign_attempt").count();
+            match r {
+                Ok(Ok(sig)) => out.ev(json!({"ev": "SignInternal", "what": format!("foreign private key: {}", name), "sk": jbytes(&b), "mp": jbytes(&mp), "rnd": jbytes(&rnd), "sig": jbytes(&sig), "attempts": att})),
+                Ok(Err(e)) => out.ev(json!({"ev": "Panic", "call": "sk try_from_bytes", "loc": "refused an acceptable private key", "msg": e})),
+                Err((loc, msg)) => out.ev(json!({"ev": "Panic", "call": "internal_sign", "loc": loc, "msg": msg})),
+            }
+        }
+    }
     // (i) factoring through the internal interface: grid of (mode, |ctx|, |M|)
     let mut grid: Vec<(usize, usize)> = vec![]; // (ctx length, message class)
     if allctx { for c in 0..256 { grid.push((c, c)); } }
